@@ -295,6 +295,12 @@ MUTANTS: dict[str, dict[str, list[tuple[str, str, str]]]] = {
                     self._results.put_nowait(task.failure(err))""",
                                             """                except forml.AnyError as err:
                     LOGGER.warning('Task failed: %s', err)""")],
+        'unknown-application-remembered': [('forml/runtime/_service/dispatch.py',
+                                            """            if application not in self._descriptors:  # may have been registered concurrently
+                raise""",
+                                            """            if application not in self._descriptors:  # may have been registered concurrently
+                self._descriptors[application] = None
+                raise""")],
         'gateway-remembers-last-accept': [('forml/provider/gateway/rest.py',
                                            """        accept = request.headers.get('accept')
         if accept:
